@@ -17,6 +17,10 @@ def dlist(h, l):
     return h
 
 
+def wrap64(z):
+    return (z + (1 << 63)) % (1 << 64) - (1 << 63)
+
+
 def zenc(z):
     return 2 * z if z >= 0 else 2 * (-z) + 1
 
@@ -156,7 +160,7 @@ class Spec:
                         best[p[0]] = max(best.get(p[0], inst(p)), inst(p))
                 w = [r for r in w if sel(r) is not None and len(sel(r)) > 1 and inst(sel(r)) == best[sel(r)[0]]]
         n, k = lo.get("max", 0), lo.get("offset", 0)
-        skip = max(n * k, 0)
+        skip = max(wrap64(n * k), 0)       # LookupSpec.spec_page: the product is computed in Go's 64-bit int
         w = w[skip:skip + n] if n > 0 else w[skip:]
         body = []
         for r in w:
